@@ -4,9 +4,9 @@ from vlib import std, hbuild, coq, common
 
 PID = "C57"
 META = {
-    "text": "Model (RockrebuildModel.v): the whole Rock::Rebuild job, line by line (loadOneSlot, DbCellHeader::empty/sane, useNewSlot's five loading states, startNewEntry/primeNewEntry, addSlotToEntry with chaining, inode conflict, metadata import (storeRebuildParseEntry size rules), size mismatch, overflow, mapSlot, finalizeOrThrow/finalizeOrFree, freeBadEntry, freeSlot, the validation passes) over the StoreMap anchors/slices and the free-slot index it drives; assert()s and escaping Must()s are explicit outcomes. Theorems (Properties_C57.v, 13, closed under the global context), for EVERY image (any number of slots, any field values, any truncation): the rebuild terminates (the fuel of the three link-following loops provably suffices); every entry left readable has a chain that ends, visits no slot twice, and consists of loaded (mapped+finalized) db slots with positive sizes; no slot is in the chains of two readable entries; the chain's payload sizes add up to the bytes recorded for the entry; nothing stays locked. The remaining clauses of the property are REFUTED for the code as it is, each by a vm_compute witness that is replayed against the real code on every run (corpus/C57/known.txt, known findings): squid dies on an all-ones size field and on cross-linked chains (double push into the free-slot index; -S pass), a readable entry's slot can be in the free-slot index, chain sizes need not add up to swap_file_sz (short chain ending in -1), entries without inode are indexed, chains may mix keys and versions, the anchor key is taken from the swap metadata. The model is tied to the code by differential runs of the extracted model against the real Rock::Rebuild + StoreMap + PageStack + store_rebuild.cc compiled from the working tree (full final state compared: every LoadingEntry/LoadingSlot, anchor, slice, counter and the free-slot index).",
-    "note": "PARTIAL: (1) `sizes add up to the entry size` is proved for LoadingEntry::size only (C57_chain_sizes_add_up_partial); equality with swap_file_sz is refuted. (2) crash-freedom, chain-slots-not-free, inode completeness, one-key/one-version chains are refuted (known findings C57-*), not proved under restrictions. (3) completeness (an intact, unique chain is indexed) is not proved in Coq; it is part of the Python oracle evaluated on every implementation answer (0 failures). Trusted: Coq kernel, extraction, gen/gen_rockrebuild.cc, harness/h_rockrebuild.cc (builds the db file from the case line, drives the job with start()/steps() exactly as the event loop would but without the 10 ms timers, dumps state through #define private public; replaces xassert by a throwing one); the swap-metadata parser (Store::UnpackIndexSwapMeta) is abstracted to its result (zeroed / unparsable / key, swap_file_sz, KEY_PRIVATE, header length) and read errors, concurrent from-network entries (leIgnored) and resumed rebuilds are not generated. The hand-written model is validated against the code only on the generated images.",
-    "technique": "Coq proof (inductive invariant over the slot-by-slot rebuild with a frame lemma; fuel sufficiency by counting measures; vm_compute witnesses for the refuted clauses) + extracted-model differential correspondence against the real Rock::Rebuild",
+    "text": "Model (RockrebuildModel.v): the whole Rock::Rebuild job at /repo HEAD (incl. fix e9a49c7), line by line (loadOneSlot, DbCellHeader::empty/sane, useNewSlot's five loading states, startNewEntry/primeNewEntry, addSlotToEntry with chaining, inode conflict, metadata import (storeRebuildParseEntry size rules, all-ones rejection), size mismatch, overflow, mapSlot, finalizeOrThrow/finalizeOrFree, freeBadEntry, freeSlot, the validation passes) over the StoreMap anchors/slices and the free-slot index it drives; assert()s and escaping Must()s are explicit outcomes. Theorems (Properties_C57.v, 16, closed under the global context), for EVERY image (any number of slots, any field values, any truncation): the rebuild terminates (the fuel of the three link-following loops provably suffices); every entry left readable has a chain that ends, visits no slot twice, and consists of loaded (mapped+finalized) db slots with positive sizes; no slot is in the chains of two readable entries; the chain's payload sizes add up to swap_file_sz; the entry's inode was loaded; importEntry never admits an all-ones size (the two former assert images are rebuilt cleanly); nothing stays locked. Under explicit hypotheses (no used cell links to a used cell of another key; metadata keys equal cell keys; one version per key) every chain slot holds a cell of the entry's key / one version (_partial theorems, by a second invariant tying mapped slots and anchored starts to the image). Still REFUTED for the code as it is, each by a vm_compute witness replayed against the real code on every run (corpus/C57/known.txt, known findings): cross-linked chains make squid die (double push into the free-slot index; -S pass) or leave a readable entry's slot in the free-slot index or mix keys; chains mix versions of one key; the anchor key is taken from the swap metadata. The model is tied to the code by differential runs of the extracted model against the real Rock::Rebuild + StoreMap + PageStack + store_rebuild.cc compiled from the working tree (full final state compared: every LoadingEntry/LoadingSlot, anchor, slice, counter and the free-slot index).",
+    "note": "PARTIAL: (1) crash-freedom and chain-slots-not-in-the-free-index are refuted for cross-linked images and NOT proved for images without cross links (no restricted theorem; the oracle checks them on every implementation answer). (2) one key / one version per chain are proved only under the stated image hypotheses (C57_chain_of_one_key_partial, C57_chain_of_one_version_partial) and refuted without them. (3) completeness (an intact, unique chain is indexed) is not proved in Coq; it is part of the Python oracle evaluated on every implementation answer (0 failures). Trusted: Coq kernel, extraction, gen/gen_rockrebuild.cc, harness/h_rockrebuild.cc (builds the db file from the case line, drives the job with start()/steps() exactly as the event loop would but without the 10 ms timers, dumps state through #define private public; replaces xassert by a throwing one); the swap-metadata parser (Store::UnpackIndexSwapMeta) is abstracted to its result (zeroed / unparsable / key, swap_file_sz, KEY_PRIVATE, header length) and read errors, concurrent from-network entries (leIgnored) and resumed rebuilds are not generated. The hand-written model is validated against the code only on the generated images.",
+    "technique": "Coq proof (two inductive invariants over the slot-by-slot rebuild with frame/footprint lemmas; fuel sufficiency by counting measures; vm_compute witnesses for the refuted clauses) + extracted-model differential correspondence against the real Rock::Rebuild",
 }
 
 # link recipe of src/tests/testRock (make -n tests/testRock), minus tests/testRock.o and tests/stub_store_rebuild.o:
